@@ -155,6 +155,20 @@ T = [
      "                |re| re.is_match(&scenario.name),", "                |re| re.is_match(&feat.name),"),
     ("c15_not_ignored", "C15/R2", "src/tag.rs",
      "            Self::Not(t) => !t.eval(tags),", "            Self::Not(t) => t.eval(tags),"),
+    # ---- C17
+    ("c17_when_looks_in_then", "C17/R1", "src/step.rs",
+     "            StepType::When => &self.when,", "            StepType::When => &self.then,"),
+    ("c17_unsorted_candidates", "C17/R3", "src/step.rs",
+     "                            .map(|(re, loc, ..)| (re.clone(), *loc))\n                            .sorted()\n                            .collect(),", "                            .map(|(re, loc, ..)| (re.clone(), *loc))\n                            .collect(),"),
+    ("c17_groups_from_zero", "C17/R4", "src/step.rs",
+     "                (1..captures.len()).map(|group_id| {", "                (0..captures.len()).map(|group_id| {"),
+    ("c17_first_match_wins", "C17/R2", "src/step.rs",
+     "                0 => return Ok(None),\n                // Instead of `.unwrap()` to avoid documenting `# Panics`.\n                1 => captures.pop().unwrap_or_else(|| unreachable!()),\n                _ => {",
+     "                0 => return Ok(None),\n                // Instead of `.unwrap()` to avoid documenting `# Panics`.\n                1 | 2 => captures.pop().unwrap_or_else(|| unreachable!()),\n                _ => {"),
+    ("c17_then_builder_inserts_into_when", "C17/R1", "src/step.rs",
+     "        _ = self.then.insert((regex.into(), loc), step);", "        _ = self.when.insert((regex.into(), loc), step);"),
+    ("c17_ord_ignores_pattern", "C17/R3", "src/step.rs",
+     "        self.0.as_str().cmp(other.0.as_str())", "        self.0.as_str().len().cmp(&other.0.as_str().len())"),
     # ---- C10
     ("c10_world_new_outside_catch", "C10/R1", B,
      "                match AssertUnwindSafe(async { W::new().await })\n                    .catch_unwind()\n                    .then_yield()\n                    .await\n                {\n                    Ok(Ok(w)) => w,",
